@@ -22,7 +22,8 @@ _nonempty = z3.Function('dict_nonempty', z3.ArraySort(AnyT, B), B)
 
 
 def dict_nonempty(d, has_row):
-    return _nonempty(has_row)
+    "some key is present: the has-row is not the constant-False array (array theory: a present key decides it)"
+    return z3.Not(has_row == z3.K(AnyT, z3.BoolVal(False)))
 
 
 class AnyVals:
@@ -158,5 +159,4 @@ class AnyVals:
     def dict_contains(self, d, k, st, fr):
         has = self.dict_has(st, d, k)
         row = z3.Select(self.dict_arrays(st)[0], d.t)
-        st.assume(z3.Implies(has, _nonempty(row)))      # a present key makes the dictionary non-empty
         return self.ex.ok(SBool(has), st)
